@@ -1,4 +1,6 @@
-(* Tie by translation (C16, bld-render4): CostRenderer of beanquery/query_render.py (Gen/SrcRender.v render_cost_...).
+(* STANDALONE (nothing requires this file; its Qed of cost_format_src takes ~6 min - to be made faster): a copy of
+   Proofs/SrcRenderCost.v plus cost_format_src.
+   Tie by translation (C16, bld-render4): CostRenderer of beanquery/query_render.py (Gen/SrcRender.v render_cost_...).
    Interpreting the translated __init__ / update / prepare / format on the encoded values of Model/PrimsRenderCost.v yields
    Render.v's c_init / c_update / c_width / c_format; and the model's formatted cell never exceeds the prepared width
    (cost_fits). *)
